@@ -2,7 +2,7 @@
 implementation-level oracle used to search for a concrete failing input."""
 import re
 
-from . import gen_kzg, gen_pc, gen_c16, gen_c13, gen_c08, gen_c09, gen_c14, gen_c15, gen_mlpc, gen_lig
+from . import gen_kzg, gen_pc, gen_c16, gen_c13, gen_c08, gen_c09, gen_c14, gen_c15, gen_mlpc, gen_lig, gen_ipax
 from .gen_common import R_BLS381
 from .oracles import pc_honest, pc_mutations, pc_refusals, pc_hiding, pc_domain, pc_serialization
 
@@ -529,6 +529,23 @@ def oracle_lig(case, lo):
     return fails
 
 
+def oracle_ipax(case, lo):
+    """IPA check_combinations: a commitment with a shifted part but no degree bound must not make the verifier check the NEXT
+    combination against that stray element"""
+    fails = []
+    if case.kind != "ipax":
+        return fails
+    who = "IPA (degree %s), combinations lc1 = p1, lc2 = p2" % case.fields["degree"][0]
+    if lib_s(lo, "honest") != "accept":
+        fails.append("%s: honest open_combinations/check_combinations of (p1, q) -> %s" % (who, lib_s(lo, "honest")))
+    if lib_s(lo, "claim_is_false") == "yes" and lib_s(lo, "stray_shifted") == "accept":
+        fails.append("%s: with q's commitment as a stray shifted part of p1's commitment (no degree bound), the opening of (p1, q) is "
+                     "accepted for the false claim p2(z) = q(z): the flat element list of construct_labeled_commitments is read back shifted by one" % who)
+    if lib_s(lo, "plain_check_with_stray_shifted") == "accept":
+        fails.append("%s: plain check accepts a commitment with a shifted part and no degree bound" % who)
+    return fails
+
+
 def oracle_mlpc(case, lo):
     """multilinear PST on library outputs only"""
     fails = []
@@ -641,8 +658,8 @@ PROPS = {
     },
     "C03": {
         "props_file": "props/C03.v",
-        "flows": [(gen_kzg.gen, "c03", 40, 400), (gen_pc.gen, "c03", 160, 1600), (gen_mlpc.gen, "c03", 16, 160), (gen_lig.gen, "c03", 16, 160), (gen_lig.gen_multi, "c03", 8, 80)],
-        "oracles": [oracle_mlpc, oracle_lig, lambda c, lo: pc_mutations(c, lo, ("proofs", "proof_mut", "proof_mut_v", "attack"))],
+        "flows": [(gen_kzg.gen, "c03", 40, 400), (gen_pc.gen, "c03", 160, 1600), (gen_mlpc.gen, "c03", 16, 160), (gen_lig.gen, "c03", 16, 160), (gen_lig.gen_multi, "c03", 8, 80), (gen_ipax.gen, "c03", 6, 60)],
+        "oracles": [oracle_mlpc, oracle_lig, oracle_ipax, lambda c, lo: pc_mutations(c, lo, ("proofs", "proof_mut", "proof_mut_v", "attack"))],
         "accept_diffs": ("mut.",),
         "title": "Evaluation binding (crafted proofs)",
     },
@@ -655,8 +672,8 @@ PROPS = {
     },
     "C10": {
         "props_file": "props/C10.v",
-        "flows": [(gen_kzg.gen, "c10", 40, 400), (gen_pc.gen, "c10", 160, 1600), (gen_lig.gen, "c10", 16, 160), (gen_lig.gen_multi, "c10", 8, 80)],
-        "oracles": [oracle_kzg_muts, pc_honest, oracle_lig, lambda c, lo: pc_mutations(c, lo, ("value", "comm_swap", "cancel", "proof_mut"))],
+        "flows": [(gen_kzg.gen, "c10", 40, 400), (gen_pc.gen, "c10", 160, 1600), (gen_lig.gen, "c10", 16, 160), (gen_lig.gen_multi, "c10", 8, 80), (gen_ipax.gen, "c10", 6, 60)],
+        "oracles": [oracle_kzg_muts, pc_honest, oracle_lig, oracle_ipax, lambda c, lo: pc_mutations(c, lo, ("value", "comm_swap", "cancel", "proof_mut"))],
         "accept_diffs": ("mut.", "batch."),
         "title": "Verifiers decide the published relation",
     },
